@@ -110,6 +110,11 @@ def r2(ctx):
             hops += 1
         if od and od[0] == "def" and od[1]["kind"] == "call" and re.search(r"ops::Index::index$", od[1]["term"]["callee"]):
             return [const_value(op_const(od[1]["term"]["args"][1]) or {})]
+        # slice pattern `let [key, value] = parts[..] else ..`: element K of exactly N
+        if od and od[0] == "place":
+            ci = [e for e in od[1]["proj"] if isinstance(e, dict) and "constindex" in e]
+            if len(ci) == 1 and not ci[0].get("from_end"):
+                return [ci[0]["constindex"]]
         return []
 
     ki, vi = idx_of(i[1]["args"][1]), idx_of(i[1]["args"][2])
